@@ -450,5 +450,22 @@ func runC06(in sx.SX) (sx.SX, string) {
 	if fail == "" && (op == 4 || op == 5) && (a.Type() == variants.Integer || a.Type() == variants.Long) && strings.HasPrefix(sx.Text(l[3]), "(1 0)") && err == nil {
 		fail = "integer division by zero returned a value: " + sx.Text(obs)
 	}
+	// what an operator returns belongs to the caller: writing into it in place changes neither the operands, nor the
+	// package's shared null constant, nor what the same call returns next time
+	if fail == "" && err == nil && res != nil && res != a && res != b && op != 21 { // (indexing returns the element itself)
+		beforeA, beforeB := sx.Text(valSX(a)), sx.Text(valSX(b))
+		res.SetAsInteger(424242)
+		if !variants.Empty.IsNull() {
+			fail = "writing into the result of an operator changed the package-level constant variants.Empty to " + sx.Text(valSX(variants.Empty))
+			variants.Empty.Clear()
+		} else if sx.Text(valSX(a)) != beforeA || sx.Text(valSX(b)) != beforeB {
+			fail = "writing into the result of an operator changed an operand"
+		} else {
+			r2, e2 := applyOp(m, op, a, b)
+			if o2, _ := resSX(r2, e2); sx.Text(o2) != sx.Text(obs) {
+				fail = fmt.Sprintf("after the caller wrote into the first result, the same call returns %s instead of %s", sx.Text(o2), sx.Text(obs))
+			}
+		}
+	}
 	return obs, fail
 }
